@@ -16,6 +16,8 @@ from .common import Rng, Result, log
 from .c15_gen import VARIANTS, vname
 
 PID = "C15"
+STOP = {"violations": 0}     # once enough failing cases are in, the remaining ones are not started
+STOP_AFTER = 12
 
 
 def make_case(rng, pool, parks, old, new, n_prefix, n_follow, via=None):
@@ -33,6 +35,9 @@ def make_case(rng, pool, parks, old, new, n_prefix, n_follow, via=None):
 
 def run_case(args):
     idx, case, k15, workdir = args
+    if STOP["violations"] >= STOP_AFTER:
+        return {"idx": idx, "rc": 3, "stderr": "", "fails": [], "imgdiff": [], "summary": {}, "occ": {}, "variant": None, "stale": [],
+                "violation": False, "skipped": True}
     sp = os.path.join(workdir, "case_%d.txt" % idx)
     with open(sp, "w") as f:
         f.write("\n".join(case["script"]) + "\n")
@@ -52,21 +57,24 @@ def run_case(args):
          "imgdiff": [l for l in lines if l.startswith("IMGDIFF")][:12], "summary": {}, "occ": {}, "variant": None, "stale": []}
     for l in lines:
         if l.startswith("SUMMARY"):
-            r["summary"] = {k: int(v) for k, v in (t.split("=") for t in l.split()[1:])}
+            r["summary"] = {t.split("=")[0]: int(t.split("=")[1]) for t in l.split()[1:] if re.match(r"^\w+=-?\d+$", t)}
         elif l.startswith("P OCC"):
-            r["occ"] = {k: int(v) for k, v in (t.split("=") for t in l.split()[2:])}
+            r["occ"] = {t.split("=")[0]: int(t.split("=")[1]) for t in l.split()[2:] if re.match(r"^\w+=\d+$", t)}
         elif l.startswith("IMGCMP after-init"):
             r["variant"] = re.search(r"variant=(\S+)", l).group(1)
     r["stale"] = sorted({re.search(r"region=(\S+)", l).group(1) for l in lines if l.startswith("IMGDIFF") and "used=0" in l})
     r["violation"] = (rc not in (0, 3)) or bool(r["fails"])
     r["skipped"] = rc == 3
+    if rc == -14:
+        r["stderr"] = "harness killed by its own alarm: a call into the library did not return (hang)"
     if r["violation"]:
+        STOP["violations"] += 1
         r["tail"] = [l[:300] for l in lines if not l.startswith(("P T", "P R", "X T", "X R"))][-30:]
     return r
 
 
-def signature(r):
-    """narrow signature of a violation for known_findings: first FAIL class + first differing field"""
+def signature(r, case=None):
+    """narrow signature of a violation for known_findings: new variant + first FAIL class + first differing field"""
     f = r["fails"][0] if r["fails"] else ("crash rc=%d" % r["rc"])
     cls = f.split(":")[0].replace("FAIL ", "").strip()
     fld = ""
@@ -74,7 +82,8 @@ def signature(r):
     if used:
         m = re.search(r"region=(\S+) leaf=([A-Za-z_.]+)", used[0])
         fld = "%s.%s" % (m.group(1), m.group(2))
-    return "%s/%s/%s" % (r.get("variant") or "?", cls, fld)
+    var = r.get("variant") or (vname(tuple(case["new"])) if case else "?")
+    return "%s/%s/%s" % (var, cls.replace(" ", "-"), fld)
 
 
 def cases_for(rng, pool, parks, tier, variants):
@@ -95,6 +104,7 @@ def cases_for(rng, pool, parks, tier, variants):
 
 
 def main(tier, seed):
+    STOP["violations"] = 0
     res = Result(PID, tier, seed, "proof")
     t0 = time.time()
     tb = common.build_lib()
@@ -119,13 +129,10 @@ def main(tier, seed):
                            "modelled, not verified: the power-up self test (a function of the scheduling state, see C20), the submit/flush code of "
                            "the out-of-order managers (C04), which managers a variant uses (member accesses in the preprocessed variant source)"])
     results, ncases = [], 0
-    parks = {}
+    parks, probe_failures = {}, []
     if k15:
         pool = c15_gen.load_pool()
-        with cf.ThreadPoolExecutor(max_workers=common.NCPU) as ex:
-            for v, pk in zip(VARIANTS, ex.map(lambda v: c15_gen.probe(k15, v, pool, workdir), VARIANTS)):
-                if pk:
-                    parks[v] = pk
+        parks, probe_failures = c15_gen.probe_all(k15, pool, workdir)
         variants = [v for v in VARIANTS if v in parks]
         rng = Rng(seed)
         cases = cases_for(rng, pool, parks, tier, variants)
@@ -179,7 +186,7 @@ def main(tier, seed):
     for r, c in zip(results, cases):
         if not r["violation"]:
             continue
-        sig = signature(r)
+        sig = signature(r, c)
         k = [l for l in known if ("key=%s " % sig) in l + " "]
         if k:
             if sig not in seen_sig:
@@ -192,6 +199,10 @@ def main(tier, seed):
         res.violation({"property": PID, "kind": "re-initialised manager differs from a fresh one", "signature": sig, "case": c,
                        "fails": r["fails"], "imgdiff": r["imgdiff"], "summary": r["summary"], "rc": r["rc"], "stderr": r["stderr"],
                        "tail": r.get("tail"), "seed": seed}, note="key=%s" % sig, name="reinit_%d" % r["idx"])
+        reported += 1
+    for v, msg in probe_failures:
+        res.violation({"property": PID, "kind": "a freshly allocated manager cannot be initialised / used", "variant": list(v), "detail": msg,
+                       "seed": seed}, note="key=%s/init" % vname(v), name="init_%s_%d" % v)
         reported += 1
     for f in pres["failed"]:
         log("proof obligation failed:", f)
